@@ -10,7 +10,8 @@ LEVEL = "model_checking"
 FUNCTIONS = F3 + ["Matryoshka.get_status", "_Report.adjust_to_bounds", "_Report.bounds"]
 ASSUMPTIONS = [
     "floats are modelled as exact reals",
-    "system bounds il <= el <= 0 <= eu <= iu",
+    "system bounds il <= el <= 0 <= eu <= iu (exclusion zone inside the inclusion bounds, the documented contract of SystemBounds; with a zone sticking out of the "
+    "inclusion bounds a zero preference inside the reported bounds is not adopted - outside C04's conflict-free domain)",
     "conflict-free proposal set, stated declaratively: at every prefix of the priority order the interval "
     "[max(il, lowers...), min(iu, uppers...)] minus the open exclusion zone (el, eu) is non-empty",
 ]
@@ -44,7 +45,7 @@ def make_pref(n_high, low_bounds, empty_pos=None, reach=False):
     """n_high bound-setting proposals (any None pattern) above one proposal with a preference.
     empty_pos: None, or 'top'/'mid'/'bottom': additionally an empty proposal (no power, no bounds) is added there (clause c)."""
     def fn(ex):
-        sb, (il, iu, el, eu) = sysbounds(ex)
+        sb, (il, iu, el, eu) = sysbounds(ex, subset=True)
         m = Matryoshka(max_proposal_age=timedelta(seconds=60))
         highs = [mkp(ex, f"H{k}", f"H{k}", 10 * (n_high - k) + 10) for k in range(n_high)]
         pB = ex.real("pB")
